@@ -121,7 +121,7 @@ def run(ctx, prog):
                     continue
                 n_pre += 1
                 h = held(b, bb)
-                k_ = sum(1 for x in ctx.instances if x['rule'] == 'C09.R1' and x['key'].startswith('C09.R1 | %s | doc_store.%s' % (f.short, 'read' if a.mode == 'R' else 'write')))
+                k_ = sum(1 for x in ctx.instances if x.get('config') == ctx.config and x['rule'] == 'C09.R1' and x['key'].startswith('C09.R1 | %s | doc_store.%s' % (f.short, 'read' if a.mode == 'R' else 'write')))
                 ctx.inst('C09.R1', f.short, 'doc_store.%s #%d inside the snapshot-lock / write-gate section' % ('read' if a.mode == 'R' else 'write', k_),
                          SNAP in h and 'HnswBackend.write_gate' in h, 'acquired at %s with %s held' % (a.call.loc, sorted(k2.split('.')[-1] for k2 in h)))
     ctx.floor('C09.R1', 'doc_store acquisitions in the mutators', n_pre, 8, '2 per mutator on the pinned tree')
@@ -219,15 +219,19 @@ def run(ctx, prog):
                  'saves dominated by the not-stale edge: %s; stale edge reaches a save: %s; compared value: %s' % (dom, not no_save, orig[:160]))
 
     # ------------------------------------------------------------------ R5
-    ctx.rule('C09.R5', 'compact_tombstones holds the snapshot lock exclusively at every exclusive acquisition of index / doc_store / '
-                       'metadata_index and at the installation of the rebuilt index')
+    ctx.rule('C09.R5', 'compact_tombstones excludes the writers and the snapshotter at every exclusive acquisition of index / doc_store / metadata_index and at the '
+                       'installation of the rebuilt index: it holds the snapshot lock (shared suffices against the snapshotter, who takes it exclusively) and, against '
+                       'writers, either holds it exclusively or holds the write gate (which every writer keeps from its slot lookup to its apply)')
     ct = ctx.body('C09.R5', 'HnswBackend::compact_tombstones')
     k = 0
     for bb, a in sorted(lm.body_acqs.get(ct.id, {}).items()):
         if a.cls in ('HnswBackend.doc_store', 'HnswBackend.index', 'HnswBackend.metadata_index') and a.mode in ('W', 'U'):
             h = held(ct, bb)
-            ctx.inst('C09.R5', ct.short, 'exclusive snapshot_lock at %s.write()' % a.cls, h.get(SNAP, (None,))[0] == 'W',
-                     '%s at %s: held = %s' % (a.cls, a.call.loc, {k_: v[0] for k_, v in h.items()}))
+            gate = h.get('HnswBackend.write_gate')
+            ok5 = SNAP in h and (h[SNAP][0] == 'W' or (gate is not None and not gate[1]))
+            ctx.inst('C09.R5', ct.short, 'writers and the snapshotter are excluded at %s.write()' % a.cls, ok5,
+                     '%s at %s: held = %s (needs the snapshot lock — shared is enough against the snapshotter — and, against writers, either that lock exclusively or the write gate)'
+                     % (a.cls, a.call.loc, {k_: v[0] for k_, v in h.items()}))
             k += 1
     ctx.floor('C09.R5', 'exclusive acquisitions in compact_tombstones', k, 3, 'index, doc_store, metadata_index')
     must_ct = lm._run_dataflow(ct, must=True)
@@ -238,8 +242,11 @@ def run(ctx, prog):
         for s in blk['s']:
             if 'rv' in s and s['pl'].get('p') == ['*'] and re.search(r'(HnswVectorIndex|MetadataInvertedIndex)$', ct.locals[s['pl']['l']].replace('&mut ', '')):
                 inst_blocks.append(i)
-    okb = bool(inst_blocks) and all({v[0]: v[1] for v in must_ct.get(b, {}).values()}.get(SNAP) == 'W' for b in inst_blocks)
-    ctx.inst('C09.R5', ct.short, 'rebuilt index / metadata index installed under the exclusive snapshot_lock', okb,
+    def _excl(b_):
+        cm = {v[0]: v[1] for v in must_ct.get(b_, {}).values()}
+        return cm.get(SNAP) == 'W' or (cm.get(SNAP) is not None and cm.get('HnswBackend.write_gate') is not None)
+    okb = bool(inst_blocks) and all(_excl(b) for b in inst_blocks)
+    ctx.inst('C09.R5', ct.short, 'rebuilt index / metadata index installed with writers and the snapshotter excluded', okb,
              'installation points: %s' % [ct.loc_of(b) for b in inst_blocks])
     # the guard is the first acquisition of the function (before the tombstone count)
     acqs = sorted(lm.body_acqs.get(ct.id, {}).items())
